@@ -14,7 +14,8 @@
 (***************************************************************************)
 EXTENDS Naturals, FiniteSets, TLC
 
-CONSTANTS MaxWrites, MaxPolls, BumpInsideLock
+CONSTANTS MaxWrites, MaxPolls, BumpInsideLock,
+          TwoLoads    \* TRUE: reloaded() loads the id once for its answer and once more for what it remembers (a mutant)
 
 VARIABLES val, rid, gflag,      \* the entry
           wlock, readers,       \* the RwLock: writer holds / number of readers
@@ -58,12 +59,22 @@ WUnlock == /\ wpc = "swapped"
            /\ U(<<val, rid, gflag, readers, ppc, np, wlast, told, toldG, repRid, seenVal, writesSinceW, writesSinceG>>)
 
 (* poller: watcher.reloaded() ; read() ; reloaded_global() ; read() *)
-PWatch == /\ ppc = "idle" /\ np < MaxPolls
+PWatch == /\ ppc = "idle" /\ np < MaxPolls /\ ~TwoLoads
           /\ told' = (rid > wlast) /\ repRid' = rid
           /\ wlast' = IF rid > wlast THEN rid ELSE wlast
           /\ writesSinceW' = 0
           /\ ppc' = "watched"
           /\ U(<<val, rid, gflag, wlock, readers, wpc, nw, np, toldG, seenVal, writesSinceG>>)
+(* the mutant: answer from a first load, remember a second one *)
+PWatchA == /\ ppc = "idle" /\ np < MaxPolls /\ TwoLoads
+           /\ told' = (rid > wlast) /\ repRid' = rid
+           /\ writesSinceW' = 0
+           /\ ppc' = "watchA"
+           /\ U(<<val, rid, gflag, wlock, readers, wpc, nw, np, wlast, toldG, seenVal, writesSinceG>>)
+PWatchB == /\ ppc = "watchA"
+           /\ wlast' = IF rid > wlast THEN rid ELSE wlast
+           /\ ppc' = "watched"
+           /\ U(<<val, rid, gflag, wlock, readers, wpc, nw, np, told, toldG, repRid, seenVal, writesSinceW, writesSinceG>>)
 PRead(from, to) ==
           /\ ppc = from /\ ~wlock
           /\ seenVal' = val          \* read lock taken and released in one step: the value is a snapshot
@@ -77,7 +88,7 @@ PGlobal == /\ ppc = "read1"
 PDone == /\ ppc = "read2" /\ ppc' = "idle" /\ np' = np + 1
          /\ U(<<val, rid, gflag, wlock, readers, wpc, nw, wlast, told, toldG, repRid, seenVal, writesSinceW, writesSinceG>>)
 
-Next == WEarly \/ WLock \/ WSwap \/ WUnlock \/ PWatch \/ PRead("watched", "read1") \/ PGlobal \/ PRead("asked", "read2") \/ PDone
+Next == WEarly \/ WLock \/ WSwap \/ WUnlock \/ PWatch \/ PWatchA \/ PWatchB \/ PRead("watched", "read1") \/ PGlobal \/ PRead("asked", "read2") \/ PDone
         \/ (nw = MaxWrites /\ np = MaxPolls /\ UNCHANGED vars)
 Spec == Init /\ [][Next]_vars
 
@@ -85,7 +96,7 @@ Spec == Init /\ [][Next]_vars
 RidCounts == BumpInsideLock => (rid = nw + (IF wpc = "swapped" THEN 1 ELSE 0))
 (* reloaded() is true exactly when at least one rewrite happened since it was last asked *)
 ToldIffWrites ==
-    [][(ppc = "idle" /\ ppc' = "watched") => (told' <=> (writesSinceW > 0))]_vars
+    [][(ppc = "idle" /\ ppc' \in {"watched", "watchA"}) => (told' <=> (writesSinceW > 0))]_vars
 GlobalIffWrites ==
     [][(ppc = "read1" /\ ppc' = "asked") => (toldG' <=> (writesSinceG > 0))]_vars
 (* a value read after a report is at least as new as the reported reload *)
